@@ -674,6 +674,127 @@ def o_moment(case):
             "labels": [f"order={order}", f"n_samples={x.shape[0]}", f"sample_order={x.ndim - 1}", f"complex={case['cplx']}"]}
 
 
+
+# ----------------------------------------------------------------------------
+# repeated calls on the SAME operand objects (seed-independence pass, seeded change C02-r2m1):
+# the k-th call must still return the formula of the operands the caller supplied, under either
+# backend.  The reference is computed from copies taken before the first call.
+# ----------------------------------------------------------------------------
+_bk_seq = st.lists(st.sampled_from(["core", "einsum"]), min_size=2, max_size=3)
+
+
+def _repeat(case, call, want, clause, operands, contraction=1, exact=False):
+    """call(bk_index) is evaluated once per entry of case['bks'] on the same argument objects"""
+    want = np.asarray(want)
+    scale = X.scale_of(operands, contraction)
+    for i, bk in enumerate(case["bks"]):
+        with tenalg_backend(bk):
+            got = call(i)
+        close(got, want, f"{clause}/call{min(i + 1, 2)}{'+' if i >= 2 else ''}@{bk}", rel=(0.0 if exact else REL), scale=scale)
+
+
+@st.composite
+def _kr_repeat_case(draw):
+    single = draw(st.booleans())
+    c = draw(_kr_case((1, 1), "one_of", None, None)) if single else draw(_kr_case((2, 3), None, None, None))
+    c["bks"] = draw(_bk_seq)
+    c["single"] = single
+    return c
+
+
+def o_kr_repeat(case):
+    mats = [gen.dec(m) for m in case["mats"]]
+    sk = case["skip"]
+    w = gen.dec(case["weights"])
+    mk = gen.dec(case["mask"])
+    eff0 = [m.copy() for i, m in enumerate(mats) if i != sk]
+    want = X.khatri_rao_entry(eff0, None if w is None else w.copy(), None if mk is None else mk.copy())
+    kw = {}
+    if sk is not None:
+        kw["skip_matrix"] = sk
+    if w is not None:
+        kw["weights"] = w
+    if mk is not None:
+        kw["mask"] = mk
+    ops = eff0 + ([w.copy()] if w is not None else []) + ([mk.copy()] if mk is not None else [])
+    _repeat(case, lambda i: T.khatri_rao(mats, **kw), want, "khatri_rao/repeat", ops,
+            exact=_exact(case["mats"], case["mask"]) and case["weights"] is None)
+    return {"nontrivial": bool(want.size > 1 and (w is not None or mk is not None or len(eff0) >= 2)),
+            "labels": [f"remaining={len(eff0)}", f"weights={w is not None}", f"mask={mk is not None}",
+                       f"skip={sk is not None}", "bks=" + ",".join(case["bks"])]}
+
+
+@st.composite
+def _mttkrp_repeat_case(draw):
+    order2 = draw(st.booleans())
+    c = draw(_mttkrp_case((2, 2), True)) if order2 else draw(_mttkrp_case((3, 4), None))
+    n = len(c["x"]["s"])
+    k = draw(st.integers(2, 3))
+    c["bks"] = draw(st.lists(st.sampled_from(["core", "einsum"]), min_size=k, max_size=k))
+    c["modes"] = [draw(st.integers(0, n - 1)) for _ in range(k)]
+    c["memory"] = draw(st.sampled_from([False, False, True]))
+    return c
+
+
+def o_mttkrp_repeat(case):
+    x = gen.dec(case["x"])
+    w, fs = gen.dec_cp(case["cp"])
+    x0, w0, fs0 = x.copy(), (None if w is None else w.copy()), [f.copy() for f in fs]
+    fn = unfolding_dot_khatri_rao_memory if case["memory"] else T.unfolding_dot_khatri_rao
+    for i, (bk, mode) in enumerate(zip(case["bks"], case["modes"])):
+        want = X.mttkrp(x0, w0, fs0, mode)
+        others = [f for k, f in enumerate(fs0) if k != mode]
+        scale = X.scale_of([x0] + others + ([w0] if w0 is not None else []), x0.size // x0.shape[mode])
+        with tenalg_backend(bk):
+            got = fn(x, (w, fs), mode)          # same tensor, weights and factor objects every time (as in ALS)
+        close(got, want, f"mttkrp/repeat/call{min(i + 1, 2)}{'+' if i >= 2 else ''}@{bk}", rel=REL, scale=scale)
+    return {"nontrivial": True, "labels": [f"order={x.ndim}", f"weights={case['cp']['wkind']}", f"memory={case['memory']}",
+                                           "bks=" + ",".join(case["bks"])]}
+
+
+@st.composite
+def _mmd_repeat_case(draw):
+    c = draw(_mmd_case(draw(st.sampled_from(["full", "ascending", "unsorted"]))))
+    c["bks"] = draw(_bk_seq)
+    return c
+
+
+def o_mmd_repeat(case):
+    x = gen.dec(case["x"])
+    ops = [gen.dec(o) for o in case["ops"]]
+    tr, skip = case["transpose"], case["skip"]
+    eff_ops, eff_modes = [], []
+    for i, (o, m) in enumerate(zip(ops, case["modes_eff"])):
+        if skip is not None and i == skip:
+            continue
+        eff_ops.append(np.conj(o.T).copy() if (tr and o.ndim == 2) else o.copy())
+        eff_modes.append(m)
+    want = ref.multi_mode_dot(x.copy(), eff_ops, eff_modes)
+    ctot = X.prod(x.shape[m] for m in eff_modes)
+    _repeat(case, lambda i: T.multi_mode_dot(x, ops, modes=case["modes"], skip=skip, transpose=tr), want,
+            "multi_mode_dot/repeat", [x.copy()] + eff_ops, ctot, exact=_exact(case["x"], case["ops"]))
+    return {"nontrivial": bool(ctot > 1 or np.asarray(want).size > 1), "labels": [f"order={x.ndim}", "bks=" + ",".join(case["bks"])]}
+
+
+@st.composite
+def _kron_repeat_case(draw):
+    c = draw(_kron_case(draw(st.booleans())))
+    c["bks"] = draw(_bk_seq)
+    return c
+
+
+def o_kron_repeat(case):
+    mats = [gen.dec(m) for m in case["mats"]]
+    skip, rev = case["skip"], case["reverse"]
+    eff = [m.copy() for i, m in enumerate(mats) if i != skip]
+    if rev:
+        eff = eff[::-1]
+    want = X.kron_list(eff)
+    kw = {} if skip is None else {"skip_matrix": skip}
+    _repeat(case, lambda i: T.kronecker(mats, reverse=rev, **kw), want, "kronecker/repeat", eff, exact=_exact(case["mats"]))
+    return {"nontrivial": bool(want.size > 1), "labels": [f"n={len(mats)}", "bks=" + ",".join(case["bks"])]}
+
+
 # ----------------------------------------------------------------------------
 def subchecks(tier):
     S = SubCheck
@@ -712,4 +833,9 @@ def subchecks(tier):
         S("sample_khatri_rao/seeded", _skr_case(False), o_skr, quick=350, thorough=2000),
         S("higher_order_moment/matrix", _moment_case(1), o_moment, quick=350, thorough=2000),
         S("higher_order_moment/tensor", _moment_case(2), o_moment, quick=350, thorough=2000),
+        # the same operand objects used for several calls (core / einsum in a drawn order)
+        S("khatri_rao/repeat_calls", _kr_repeat_case(), o_kr_repeat, quick=300, thorough=2500),
+        S("mttkrp/repeat_calls", _mttkrp_repeat_case(), o_mttkrp_repeat, quick=300, thorough=2500),
+        S("multi_mode_dot/repeat_calls", _mmd_repeat_case(), o_mmd_repeat, quick=200, thorough=2000),
+        S("kronecker/repeat_calls", _kron_repeat_case(), o_kron_repeat, quick=150, thorough=1500),
     ]
